@@ -21,23 +21,23 @@ Fixpoint char_of_byte (x : str) (b : N) (idx : N) : option N :=
   | c :: r => if N.ltb b (utf8_w c) then Some idx else char_of_byte r (b - utf8_w c) (idx + 1)
   end.
 
-(* get_position (ui_token.rs:96-110): at the very end of the line the *byte* length is
-   returned as is *)
+(* get_position (ui_token.rs:99-113): at the very end of the line the character count *)
 Definition get_position (line : str) (b : N) : N :=
   match char_of_byte line b 0 with
   | Some p => p
-  | None => if N.eqb (byte_length line) b then b else 0
+  | None => if N.eqb (byte_length line) b then N.of_nat (length line) else 0
   end.
 
-(* check_collision (ui_token.rs:112-120): candidate byte offsets against stored positions *)
+(* check_collision (ui_token.rs:115-123): character positions on both sides *)
 Definition check_collision (us : list uitoken) (st en : N) : bool :=
-  negb (existsb (fun it =>
-     (N.leb (ui_start it) st && N.ltb st (ui_end it)) || (N.ltb (ui_start it) en && N.leb en (ui_end it))) us).
+  negb (existsb (fun it => N.ltb (ui_start it) en && N.ltb st (ui_end it)) us).
 
 (* add_from_regex_match for Some(match) with byte span [st, en) *)
 Definition ui_add (line : str) (us : list uitoken) (st en : N) (k : uikind) : list uitoken :=
-  if N.ltb st en && check_collision us st en
-  then us ++ [{| ui_start := get_position line st; ui_end := get_position line en; ui_kind := k |}]
+  let s0 := get_position line st in
+  let e0 := get_position line en in
+  if N.ltb s0 e0 && check_collision us s0 e0
+  then us ++ [{| ui_start := s0; ui_end := e0; ui_kind := k |}]
   else us.
 
 Definition ui_add_opt (line : str) (us : list uitoken) (m : option (N * N)) (k : uikind) : list uitoken :=
